@@ -10,6 +10,8 @@ pub mod verif_access {
             PASSED_PAWN_PST = *pst;
         }
     }
+    pub fn mask(player: Player, sq: Square) -> Bitboard { enemy_passed_pawn_mask(player, sq) }
+    pub fn pst(player: Player, sq: Square) -> PhasedEval { pst_value(player, sq) }
     pub fn dump_masks() -> Vec<u64> { unsafe { (0..128).map(|i| ENEMY_PASSED_PAWN_MASKS[i / 64][i % 64].as_u64()).collect() } }
     pub fn dump_pst_mg() -> Vec<u64> { unsafe { (0..128).map(|i| PASSED_PAWN_PST[i / 64][i % 64].midgame().0 as i64 as u64).collect() } }
     pub fn dump_pst_eg() -> Vec<u64> { unsafe { (0..128).map(|i| PASSED_PAWN_PST[i / 64][i % 64].endgame().0 as i64 as u64).collect() } }
